@@ -148,6 +148,9 @@ def model(work, repo, seed=1, n_random=24, timeout=1800):
     res.update({"states": dist, "transitions": gen, "wall_s": round(time.time() - t0, 1)})
     if "No error has been found" not in out:
         raise vlib.Infra("MC_Fiat did not complete:\n" + out[-3000:])
+    if '"FUNSOUND ' in out:
+        raise vlib.Infra("spec/Fiat.tla: a concrete value lies outside the interval computed for it (the interval interpretation is unsound):\n" +
+                         "\n".join(l for l in out.splitlines() if "FUNSOUND" in l)[:500])
     fails, leads = [], []
     for line in out.splitlines():
         if line.startswith('"FFAIL '):
